@@ -72,11 +72,15 @@ type tableStrategy struct {
 	priv ed25519.PrivateKey
 	pub  ed25519.PublicKey
 	pad  []byte // extra bytes appended to every signature (a misbehaving strategy)
+	trim int    // > 0: only the first trim-1 bytes of the signature are returned (1: an empty signature, no error)
 }
 
 func (t tableStrategy) Sign(data []byte) ([]byte, error) {
 	if t.priv == nil {
 		return nil, errors.New("strategy refuses")
+	}
+	if t.trim > 0 {
+		return ed25519.Sign(t.priv, data)[:t.trim-1], nil
 	}
 	return append(ed25519.Sign(t.priv, data), t.pad...), nil
 }
@@ -269,6 +273,9 @@ func init() {
 		if len(a) > 7 && a[7].K == 1 {
 			st.pad = a[7].B
 		}
+		if len(a) > 7 && a[7].K == 2 && len(a[7].L) == 2 {
+			st.trim = a[7].L[1].Int()
+		}
 		s := ib.IntegrityBlockSigner{SigningStrategy: st, WebBundleHash: a[0].B, IntegrityBlock: blk}
 		if err := s.SignAndAddNewSignature(ed25519.PublicKey(a[2].B), attrsOf(a[3])); err != nil {
 			return ErrV()
@@ -288,6 +295,9 @@ func init() {
 			}
 			if at.L[5].K == 1 && len(at.L[5].B) > 0 {
 				st.pad = at.L[5].B
+			}
+			if at.L[5].K == 2 && len(at.L[5].L) == 2 {
+				st.trim = at.L[5].L[1].Int()
 			}
 			s.SigningStrategy = st
 			tag := "ok"
@@ -369,6 +379,9 @@ func init() {
 			if at.L[5].K == 1 && len(at.L[5].B) > 0 {
 				st.pad = at.L[5].B
 			}
+			if at.L[5].K == 2 && len(at.L[5].L) == 2 {
+				st.trim = at.L[5].L[1].Int()
+			}
 			s.SigningStrategy = st
 			tag := "ok"
 			if err := s.SignAndAddNewSignature(ed25519.PublicKey(at.L[0].B), attrsOf(at.L[1])); err != nil {
@@ -379,6 +392,53 @@ func init() {
 		return L(out...)
 	})
 	// CanSignForURL against the standard library's own hostname matching
+	// bsig_resign ver i: ONE signer signs, its window is moved a week on (Date, Expires), its validity URL changed,
+	// it signs again: the second signature must verify in the NEW window (and not in the old one), the first
+	// one in the old window
+	regOp("bsig_resign", func(a []Sx) (res Sx) {
+		defer func() {
+			if r := recover(); r != nil {
+				res = L(Sym("panic"))
+			}
+		}()
+		sigKeysOnce()
+		ver := bverOf(a[0])
+		leaf := sigKeys[[]int{0, 1, 3}[a[1].Int()%3]]
+		host := leaf.cert.DNSNames[0]
+		chain := certurl.CertChain{{Cert: leaf.cert, OCSPResponse: []byte("ocsp")}, {Cert: sigKeys[2].cert}}
+		signer, err := signature.NewSigner(ver, chain, leaf.priv, mustURL("https://"+host+"/v1"), time.Unix(baseDate, 0), time.Hour)
+		if err != nil {
+			return L(Sym("nosigner"))
+		}
+		h := http.Header{}
+		h.Add("Content-Type", "text/plain")
+		e := &bundle.Exchange{Request: bundle.Request{URL: mustURL("https://" + host + "/renewed"), Header: http.Header{}},
+			Response: bundle.Response{Status: 200, Header: h, Body: []byte("renewed signature")}}
+		id, err := e.AddPayloadIntegrity(ver, 16)
+		if err != nil || signer.AddExchange(e, id) != nil {
+			return L(Sym("noadd"))
+		}
+		week := int64(7 * 24 * 3600)
+		verdict := func(sigs *bundle.Signatures, at int64) Sx {
+			v, err := signature.NewVerifier(sigs, time.Unix(at, 0), ver)
+			if err != nil {
+				return Zi(0)
+			}
+			r, err := v.VerifyExchange(e)
+			return Bool(err == nil && r != nil)
+		}
+		s1, err := signer.UpdateSignatures(nil)
+		if err != nil {
+			return L(Sym("nosign"))
+		}
+		signer.Date, signer.Expires = signer.Date.Add(time.Duration(week)*time.Second), signer.Expires.Add(time.Duration(week)*time.Second)
+		signer.ValidityUrl = mustURL("https://" + host + "/v2")
+		s2, err := signer.UpdateSignatures(nil)
+		if err != nil {
+			return L(Sym("nosign2"))
+		}
+		return L(verdict(s1, baseDate+10), verdict(s1, baseDate+week+10), verdict(s2, baseDate+week+10), verdict(s2, baseDate+10))
+	})
 	regOp("bsig_can_sign", func(a []Sx) Sx {
 		chain := certurl.CertChain{}
 		for _, c := range a[0].L {
